@@ -102,6 +102,7 @@ func main() {
 	var sites []site
 	nsync := 0
 	nselects := 0
+	var funcs []string
 	for _, p := range pkgs {
 		if len(p.Errors) > 0 {
 			die("package %s does not type-check: %v", p.PkgPath, p.Errors[0])
@@ -120,6 +121,31 @@ func main() {
 					im.Name = ast.NewIdent("sync")
 					changed = true
 					nsync++
+				}
+			}
+			// (1b) reach probes: one counter per function of the simulated packages
+			if !strings.HasSuffix(p.PkgPath, "/pkg/api") {
+				relf, _ := filepath.Rel(*repo, name)
+				for _, d := range f.Decls {
+					fd, ok := d.(*ast.FuncDecl)
+					if !ok || fd.Body == nil {
+						continue
+					}
+					fn := fd.Name.Name
+					if fd.Recv != nil && len(fd.Recv.List) > 0 {
+						var rb bytes.Buffer
+						format.Node(&rb, p.Fset, fd.Recv.List[0].Type)
+						fn = "(" + rb.String() + ")." + fn
+					}
+					id := len(funcs)
+					funcs = append(funcs, relf+": "+fn)
+					hit := &ast.ExprStmt{X: &ast.CallExpr{
+						Fun:  &ast.SelectorExpr{X: ast.NewIdent("simorder"), Sel: ast.NewIdent("Hit")},
+						Args: []ast.Expr{&ast.BasicLit{Kind: token.INT, Value: fmt.Sprint(id)}},
+					}}
+					fd.Body.List = append([]ast.Stmt{hit}, fd.Body.List...)
+					addImport(f, "nrisim/simorder")
+					changed = true
 				}
 			}
 			// (2) map ranges
@@ -296,7 +322,7 @@ func (r *Adaptation) VerifServe(l net.Listener) error {
 			}
 		}
 	}
-	sb2, _ := json.MarshalIndent(map[string]any{"map_range_sites": sites, "sync_imports_redirected": nsync, "selects_rewritten": nselects}, "", " ")
+	sb2, _ := json.MarshalIndent(map[string]any{"map_range_sites": sites, "sync_imports_redirected": nsync, "selects_rewritten": nselects, "functions": funcs}, "", " ")
 	os.WriteFile(filepath.Join(*out, "simgen-report.json"), sb2, 0o644)
 	fmt.Printf("simgen: %d files in overlay, %d map-range sites, %d sync imports redirected, %d selects rewritten\n", len(overlay), len(sites), nsync, nselects)
 }
